@@ -30,6 +30,7 @@ type ModelState struct {
 		Ch  []int    `json:"ch"`
 		Evs []string `json:"evs"`
 	} `json:"blocks"`
+	SealFrame int `json:"seal_frame,omitempty"` // the application seals the epoch at this frame (same validator set)
 	Tag string `json:"tag,omitempty"` // set for DAGs found by the harness's own generator: no expected blocks, the trace specification decides
 }
 
@@ -107,7 +108,14 @@ func CmdReplayStates(args []string, seed int64) int {
 			vals = append(vals, ValW{idx.ValidatorID(i + 1), pos.Weight(w)})
 		}
 		ep := &EpochPlan{Epoch: 1, Vals: vals, Cheaters: map[idx.ValidatorID]bool{}}
-		ep.sealFn(func(idx.Epoch, idx.Frame) *pos.Validators { return nil }, vals)
+		sealFrame := idx.Frame(st.SealFrame)
+		ep.SealFrame = sealFrame
+		ep.sealFn(func(e idx.Epoch, f idx.Frame) *pos.Validators {
+			if sealFrame != 0 && e == 1 && f == sealFrame {
+				return buildVals(vals)
+			}
+			return nil
+		}, vals)
 		s.Epochs = []*EpochPlan{ep}
 		// topological creation order: parents first (by seq sum is not enough): iterate
 		byKey := map[string]*Ev{}
